@@ -398,3 +398,140 @@ func PrepareErrCode(msg string) int {
 func (c *Conformer) ObjectRoot(root *IType, ss *ast.SelectionSet, obj map[string]interface{}) {
 	c.object(root, ss, obj, "$")
 }
+
+// ---- well-formedness of a query, decided from the introspection JSON alone ----
+//
+// The reference for PrepareQuery's verdict in the oracle: a selection set under an object type must
+// name advertised fields (or __typename without arguments and sub-selection), with a sub-selection
+// exactly on objects and unions; every fragment (inline or named, whatever its type condition) applies
+// under an object type; under a union only __typename may be selected directly and the fragments on a
+// member are checked against that member.  Returns "" when well-formed, otherwise what is wrong first.
+func (s *ISchema) IllFormed(doc *ast.Document, root string) string {
+	ill, _ := s.Analyse(doc, root)
+	return ill
+}
+
+// Analyse is IllFormed plus: does the query spread a named fragment under an object type other than the
+// one it was written for (cross)?
+func (s *ISchema) Analyse(doc *ast.Document, root string) (ill string, cross bool) {
+	frags := map[string]*ast.FragmentDefinition{}
+	var op *ast.OperationDefinition
+	for _, d := range doc.Definitions {
+		switch d := d.(type) {
+		case *ast.FragmentDefinition:
+			frags[d.Name.Value] = d
+		case *ast.OperationDefinition:
+			op = d
+		}
+	}
+	if op == nil {
+		return "no-operation", false
+	}
+	type key struct{ tn, frag string }
+	done := map[key]bool{}
+	var check func(tn string, ss *ast.SelectionSet, depth int) string
+	named := func(r *IRef) *IRef {
+		for r.Kind == "NON_NULL" || r.Kind == "LIST" {
+			r = r.OfType
+		}
+		return r
+	}
+	check = func(tn string, ss *ast.SelectionSet, depth int) string {
+		t := s.Types[tn]
+		if t == nil {
+			return "unadvertised-type"
+		}
+		if depth > 60 {
+			return ""
+		}
+		switch t.Kind {
+		case "SCALAR", "ENUM":
+			if ss != nil {
+				return "leaf-with-selection"
+			}
+			return ""
+		}
+		if ss == nil {
+			return "composite-without-selection"
+		}
+		for _, sel := range ss.Selections {
+			switch sel := sel.(type) {
+			case *ast.Field:
+				if sel.Name.Value == "__typename" {
+					if len(sel.Arguments) > 0 {
+						return "typename-with-arguments"
+					}
+					if sel.SelectionSet != nil {
+						return "typename-with-selection"
+					}
+					continue
+				}
+				if t.Kind == "UNION" {
+					return "union-plain-field"
+				}
+				var ft *IRef
+				for i := range t.Fields {
+					if t.Fields[i].Name == sel.Name.Value {
+						ft = &t.Fields[i].Type
+					}
+				}
+				if ft == nil {
+					return "unknown-field"
+				}
+				if why := check(named(ft).Name, sel.SelectionSet, depth+1); why != "" {
+					return why
+				}
+			case *ast.InlineFragment:
+				on := ""
+				if sel.TypeCondition != nil {
+					on = sel.TypeCondition.Name.Value
+				}
+				under := tn
+				if t.Kind == "UNION" {
+					if !isMember(t, on) {
+						continue
+					}
+					under = on
+				}
+				if why := check(under, sel.SelectionSet, depth+1); why != "" {
+					return why
+				}
+			case *ast.FragmentSpread:
+				fd := frags[sel.Name.Value]
+				if fd == nil {
+					return "unknown-fragment"
+				}
+				under := tn
+				if t.Kind == "UNION" {
+					if !isMember(t, fd.TypeCondition.Name.Value) {
+						continue
+					}
+					under = fd.TypeCondition.Name.Value
+				}
+				if under != fd.TypeCondition.Name.Value {
+					cross = true
+				}
+				k := key{under, sel.Name.Value}
+				if done[k] {
+					continue
+				}
+				done[k] = true
+				if why := check(under, fd.SelectionSet, depth+1); why != "" {
+					return why
+				}
+			}
+		}
+		return ""
+	}
+	ill = check(root, op.SelectionSet, 0)
+	return ill, cross
+}
+
+func isMember(t *IType, name string) bool {
+	for _, m := range t.PossibleTypes {
+		if m.Name == name {
+			return true
+		}
+	}
+	return false
+}
